@@ -361,10 +361,13 @@ class TickTrigger:
             if not isinstance(shape, Shape):
                 raise TypeError(f"The shape of a condition may only be `signed` or `unsigned`, "
                                 f"not {shape!r}")
-        tick = self.sample(condition).__aiter__()
+        # Each repeat is a separate one-shot wait, as documented: a multi-shot wait would be broken by
+        # an event that occurs before the caller is resumed (e.g. the domain being asynchronously
+        # reset in the same time step as a clock edge), and raise `BrokenTrigger`.
+        tick = self.sample(condition)
         done = False
         while not done:
-            clk, rst, *values, done = await tick.__anext__()
+            clk, rst, *values, done = await tick
             if rst:
                 raise DomainReset
         return tuple(values)
@@ -399,9 +402,9 @@ class TickTrigger:
         count = operator.index(count)
         if count <= 0:
             raise ValueError(f"Repeat count must be a positive integer, not {count!r}")
-        tick = self.__aiter__()
+        # See the comment in `until()`.
         for _ in range(count):
-            clk, rst, *values = await tick.__anext__()
+            clk, rst, *values = await self
             if rst:
                 raise DomainReset
             assert clk
